@@ -537,6 +537,8 @@ func (w *World) exec(l Line) (res string) {
 		return fmt.Sprintf("r=ok cas=%d", rosmar.VerifHLCNow())
 	case "restart":
 		return w.restart(l.u64("hlc", 0), l.str("mode", ""))
+	case "reopenmem":
+		return w.reopenMem()
 	case "lastcas":
 		needColl()
 		b, cc, err := rosmar.VerifLastCas(c)
@@ -1013,6 +1015,31 @@ func (w *World) restart(hlc uint64, openMode string) string {
 	}
 	next, _ := rosmar.VerifExpiryState(b)
 	return fmt.Sprintf("r=ok hlc=%d next=%d", rosmar.VerifHLCHighest(), next)
+}
+
+// reopenMem closes every handle of an in-memory bucket (which keeps its store, its feeds and its expiry manager) and opens it again by name.
+func (w *World) reopenMem() string {
+	if w.kind == "disk" {
+		return "r=harness-reopenmem-needs-mem"
+	}
+	for _, b := range w.handles {
+		b.Close(ctx)
+	}
+	w.handles = map[string]*rosmar.Bucket{}
+	w.colls = map[string]*rosmar.Collection{}
+	b, err := rosmar.OpenBucket(w.url, w.name, rosmar.CreateOrOpen)
+	if err != nil {
+		return "r=" + errClass(err)
+	}
+	w.handles["h0"] = b
+	rosmar.VerifStopExpiryTimer(b)
+	for _, c := range []string{"c0", "c1", "c2"} {
+		if _, err := w.openColl(c, "h0"); err != nil {
+			return "r=" + errClass(err)
+		}
+	}
+	next, _ := rosmar.VerifExpiryState(b)
+	return fmt.Sprintf("r=ok next=%d", next)
 }
 
 // The query family of C19: id / body property / xattr property projections and filters, over $_keyspace.
